@@ -23,7 +23,9 @@ contract(Q + 'validate_minutes', params=dict(minutes=INT), returns=BOOL,
 OptStr = TOpt(STR)
 NumTup = TSeq(REAL)
 contract(Q + 'parse_value', params=dict(itype=STR, value=OptStr), returns=TOpt(NumTup),
-         ensures=['result == html_value(itype, value)'],
+         ensures=['result == html_value(itype, value)',
+                  "implies(not (itype == 'date' or itype == 'month' or itype == 'week' or itype == 'time' or itype == 'datetime-local' or "
+                  "itype == 'number' or itype == 'range'), is_none(result))"],
          locals=dict(parsed=TOpt(NumTup)),
          kf_region="itype == 'week' and (not is_none(value)) and week53_lenient(value)", kf_id='C18-week53-lenient',
          properties=['C18', 'C08'])
